@@ -131,8 +131,9 @@ def first_cause_oracle(ix: Index) -> list[Violation]:
         T = ix.closed_seq.get(c)
         if T is not None and (ix.seq_turn[T], T) < k1:
             continue  # closed before the first delivered fault (e.g. a library timeout)
+        cancelled_ops = {(a, i) for _s, a, i in ix.cancels}
         for op in ix.ops:
-            if op.conn != c or op.s1 is None or op.ok or op.cancelled:
+            if op.conn != c or op.s1 is None or op.ok or op.cancelled or (op.actor, op.i) in cancelled_ops:
                 continue
             k0 = (op.turn0, op.s0)
             ke = (ix.seq_turn[op.s1], op.s1)
